@@ -7,8 +7,10 @@ import (
 	"fmt"
 	"io"
 	"math"
+	"sort"
 	"strings"
 	"sync/atomic"
+	"time"
 
 	"github.com/tonistiigi/fsutil/types"
 	"github.com/tonistiigi/fsutil/util"
@@ -55,7 +57,8 @@ func statValues() []*types.Stat {
 func packetValues() []*types.Packet {
 	var out []*types.Packet
 	datas := [][]byte{nil, {}, {7}, bytes.Repeat([]byte{0xab}, 40000)}
-	stats := []*types.Stat{nil, {}, {Path: "a/b", Mode: 0644, Size: 5, Xattrs: map[string][]byte{"k": []byte("v")}}}
+	stats := []*types.Stat{nil, {}, {Path: "a/b", Mode: 0644, Size: 5, Xattrs: map[string][]byte{"k": []byte("v")}},
+		{Path: "x", Xattrs: map[string][]byte{"user.empty": {}, "user.nil": nil, "": []byte("v")}}}
 	for t := types.Packet_PacketType(0); t <= 5; t++ {
 		for _, id := range []uint32{0, 1, math.MaxUint32} {
 			for _, d := range datas {
@@ -68,7 +71,97 @@ func packetValues() []*types.Packet {
 	return out
 }
 
-func roundTripStat(s *types.Stat) string {
+// safeEnc encodes a value for a replay file without trusting any single encoder.
+func safeEnc(vt func() ([]byte, error), m proto.Message) (b []byte) {
+	defer func() {
+		if recover() != nil || b == nil {
+			b, _ = proto.Marshal(m)
+		}
+	}()
+	b, _ = vt()
+	return b
+}
+
+// encoders of a stat: every exported way to get bytes out of the hand-optimised codec.
+func statEncoders(s *types.Stat) map[string]func() ([]byte, error) {
+	to := func(f func([]byte) (int, error)) func() ([]byte, error) {
+		return func() ([]byte, error) {
+			buf := make([]byte, s.SizeVT())
+			n, err := f(buf)
+			if err != nil {
+				return nil, err
+			}
+			return buf[:n], nil
+		}
+	}
+	return map[string]func() ([]byte, error){"MarshalVT": s.MarshalVT, "MarshalVTStrict": s.MarshalVTStrict, "Marshal": s.Marshal,
+		"MarshalToVT": to(s.MarshalToVT), "MarshalToVTStrict": to(s.MarshalToVTStrict)}
+}
+
+func packetEncoders(p *types.Packet) map[string]func() ([]byte, error) {
+	to := func(f func([]byte) (int, error)) func() ([]byte, error) {
+		return func() ([]byte, error) {
+			buf := make([]byte, p.Size())
+			n, err := f(buf)
+			if err != nil {
+				return nil, err
+			}
+			return buf[:n], nil
+		}
+	}
+	return map[string]func() ([]byte, error){"MarshalVT": p.MarshalVT, "MarshalVTStrict": p.MarshalVTStrict, "Marshal": p.Marshal,
+		"MarshalTo": to(p.MarshalTo), "MarshalToVT": to(p.MarshalToVT), "MarshalToVTStrict": to(p.MarshalToVTStrict)}
+}
+
+// encodeAll runs every encoder; all must succeed without panicking, produce SizeVT bytes, and decode to want.
+func encodeAll(encs map[string]func() ([]byte, error), size int, check func(b []byte) string) (msg string) {
+	names := make([]string, 0, len(encs))
+	for n := range encs {
+		names = append(names, n)
+	}
+	sort.Strings(names)
+	for _, name := range names {
+		func() {
+			defer func() {
+				if r := recover(); r != nil && msg == "" {
+					msg = fmt.Sprintf("%s panics: %v", name, r)
+				}
+			}()
+			b, err := encs[name]()
+			switch {
+			case msg != "":
+			case err != nil:
+				msg = name + ": " + err.Error()
+			case len(b) != size:
+				msg = fmt.Sprintf("%s: Size=%d but encoding has %d bytes", name, size, len(b))
+			default:
+				if m := check(b); m != "" {
+					msg = name + ": " + m
+				}
+			}
+		}()
+	}
+	return msg
+}
+
+func roundTripStat(s *types.Stat) (msg string) {
+	defer func() {
+		if r := recover(); r != nil {
+			msg = fmt.Sprintf("panic: %v", r)
+		}
+	}()
+	if m := encodeAll(statEncoders(s), s.SizeVT(), func(b []byte) string {
+		var v types.Stat
+		if err := v.UnmarshalVT(b); err != nil {
+			return "UnmarshalVT of the encoding: " + err.Error()
+		}
+		if !statEqNoX(&v, s) || !xEq(v.Xattrs, s.Xattrs) {
+			return fmt.Sprintf("decodes to %v, encoded %v", &v, s)
+		}
+		return ""
+	}); m != "" {
+		return m
+	}
 	b, err := s.MarshalVT()
 	if err != nil {
 		return "MarshalVT: " + err.Error()
@@ -137,7 +230,24 @@ func pktEq(a, b *types.Packet) bool {
 	return a.Stat == nil || (statEqNoX(a.Stat, b.Stat) && xEq(a.Stat.Xattrs, b.Stat.Xattrs))
 }
 
-func roundTripPacket(p *types.Packet) string {
+func roundTripPacket(p *types.Packet) (msg string) {
+	defer func() {
+		if r := recover(); r != nil {
+			msg = fmt.Sprintf("panic: %v", r)
+		}
+	}()
+	if m := encodeAll(packetEncoders(p), p.Size(), func(b []byte) string {
+		var v types.Packet
+		if err := v.UnmarshalVT(b); err != nil {
+			return "UnmarshalVT of the encoding: " + err.Error()
+		}
+		if !pktEq(&v, p) {
+			return "decodes to a different packet"
+		}
+		return ""
+	}); m != "" {
+		return m
+	}
 	b, err := p.Marshal()
 	if err != nil {
 		return "Marshal: " + err.Error()
@@ -310,6 +420,91 @@ func framing1(pkts []*types.Packet, cuts []int, eofWith bool) (msg string) {
 	return ""
 }
 
+// duplexReader hands out the stream up to a cut, then lets a send happen on the same stream object while the
+// receive is still waiting for the rest of the packet, then hands out the rest.
+type duplexReader struct {
+	data   []byte
+	cut    int
+	off    int
+	during func()
+	fired  bool
+}
+
+func (r *duplexReader) Read(p []byte) (int, error) {
+	if r.off >= r.cut && !r.fired {
+		r.fired = true
+		r.during()
+	}
+	if r.off >= len(r.data) {
+		return 0, io.EOF
+	}
+	end := len(r.data)
+	if r.off < r.cut {
+		end = r.cut
+	}
+	n := copy(p, r.data[r.off:end])
+	r.off += n
+	return n, nil
+}
+
+// duplex: a proto stream is used in both directions at once (one goroutine receives while others send). The
+// incoming packets are cut at byte offset cut; at that moment out is sent on the same stream.
+func duplex(in []*types.Packet, cut int, out *types.Packet) (msg string) {
+	defer func() {
+		if r := recover(); r != nil {
+			msg = fmt.Sprintf("panic: %v", r)
+		}
+	}()
+	var wire bytes.Buffer
+	enc := util.NewProtoStream(context.Background(), nil, &wire)
+	for _, p := range in {
+		if err := enc.SendMsg(p); err != nil {
+			return "SendMsg: " + err.Error()
+		}
+	}
+	var sent bytes.Buffer
+	rd := &duplexReader{data: wire.Bytes(), cut: cut}
+	st := util.NewProtoStream(context.Background(), rd, &sent)
+	var sendErr error
+	sendStuck := false
+	rd.during = func() {
+		done := make(chan struct{})
+		go func() { sendErr = st.SendMsg(out); close(done) }()
+		select {
+		case <-done:
+		case <-time.After(20 * time.Second):
+			sendStuck = true
+		}
+	}
+	got := make([]*types.Packet, len(in))
+	for i := range in {
+		got[i] = &types.Packet{}
+		if err := st.RecvMsg(got[i]); err != nil {
+			return fmt.Sprintf("RecvMsg #%d while a send ran on the same stream: %v", i, err)
+		}
+	}
+	if !rd.fired {
+		return "" // the cut lies behind the last byte: nothing was interleaved
+	}
+	if sendStuck {
+		return "SendMsg blocks while a RecvMsg on the same stream waits for data"
+	}
+	if sendErr != nil {
+		return "SendMsg during a receive: " + sendErr.Error()
+	}
+	for i := range in {
+		if !pktEq(got[i], in[i]) {
+			return fmt.Sprintf("packet #%d received while a send ran on the same stream differs (type %v id %d len %d vs type %v id %d len %d)", i, got[i].Type, got[i].ID, len(got[i].Data), in[i].Type, in[i].ID, len(in[i].Data))
+		}
+	}
+	back := util.NewProtoStream(context.Background(), &sent, nil)
+	var o types.Packet
+	if err := back.RecvMsg(&o); err != nil || !pktEq(&o, out) {
+		return fmt.Sprintf("the packet sent while a receive was in progress does not read back (%v)", err)
+	}
+	return ""
+}
+
 func compositionsUpTo(n int, f func(c []int)) {
 	var rec func(rest int, cur []int)
 	rec = func(rest int, cur []int) {
@@ -335,7 +530,7 @@ func runC20(r *evid.Run) {
 	stats := statValues()
 	par.Do(len(stats), par.Workers(), func(i int) {
 		if m := roundTripStat(stats[i]); m != "" {
-			b, _ := stats[i].MarshalVT()
+			b := safeEnc(stats[i].MarshalVT, stats[i])
 			key := "roundtrip-stat"
 			if strings.Contains(m, "invalid UTF-8") {
 				key = "roundtrip:non-utf8-string-rejected-by-generic-runtime"
@@ -348,7 +543,7 @@ func runC20(r *evid.Run) {
 	pkts := packetValues()
 	par.Do(len(pkts), par.Workers(), func(i int) {
 		if m := roundTripPacket(pkts[i]); m != "" {
-			b, _ := pkts[i].MarshalVT()
+			b := safeEnc(pkts[i].MarshalVT, pkts[i])
 			r.Violate("roundtrip-packet", m, c20Case{Kind: "roundtrip-packet", Bytes: b})
 		}
 		n.Add(1)
@@ -424,12 +619,13 @@ func runC20(r *evid.Run) {
 	// every single-byte substitution, truncation and duplication of valid encodings
 	var valid [][]byte
 	for i := 0; i < len(stats); i += len(stats)/120 + 1 {
-		b, _ := (&types.Packet{Type: types.PACKET_STAT, Stat: stats[i]}).MarshalVT()
+		sp := &types.Packet{Type: types.PACKET_STAT, Stat: stats[i]}
+		b := safeEnc(sp.MarshalVT, sp)
 		valid = append(valid, b)
 	}
 	for _, p := range pkts {
 		if len(p.Data) < 100 {
-			b, _ := p.MarshalVT()
+			b := safeEnc(p.MarshalVT, p)
 			valid = append(valid, b)
 		}
 	}
@@ -508,6 +704,36 @@ func runC20(r *evid.Run) {
 		})
 		r.Add("fragmentations_long_stream", int64(len(seqs)))
 	}
+	// (d) full duplex: every byte offset of an incoming stream x outgoing packets of several sizes
+	{
+		ins := [][]*types.Packet{
+			{{Type: types.PACKET_DATA, ID: 7, Data: bytes.Repeat([]byte{9}, 300)}, {Type: types.PACKET_REQ, ID: 3}},
+			{{Type: types.PACKET_STAT, Stat: &types.Stat{Path: "some/longer/path", Mode: 0644, Size: 12345, Xattrs: map[string][]byte{"user.k": []byte("value")}}}, {Type: types.PACKET_FIN}},
+		}
+		outs := []*types.Packet{{Type: types.PACKET_REQ, ID: 1}, {Type: types.PACKET_DATA, ID: 2, Data: bytes.Repeat([]byte{5}, 200)}, {Type: types.PACKET_DATA, ID: 2, Data: bytes.Repeat([]byte{6}, 2000)}, {}}
+		type dc struct{ in, cut, out int }
+		var dcs []dc
+		for ii, in := range ins {
+			tot := 0
+			for _, p := range in {
+				tot += 4 + p.SizeVT()
+			}
+			for cut := 0; cut < tot; cut++ {
+				for oi := range outs {
+					dcs = append(dcs, dc{ii, cut, oi})
+				}
+			}
+		}
+		par.Do(len(dcs), par.Workers(), func(i int) {
+			c := dcs[i]
+			if m := duplex(ins[c.in], c.cut, outs[c.out]); m != "" {
+				r.Violate("duplex:"+firstWord(m), fmt.Sprintf("incoming stream %d cut at byte %d, outgoing packet %d: %s", c.in, c.cut, c.out, m),
+					c20Case{Kind: "duplex", Pkts: encAll(ins[c.in]), Cuts: []int{c.cut}, Bytes: safeEnc(outs[c.out].MarshalVT, outs[c.out])})
+			}
+			n.Add(1)
+		})
+		r.Add("duplex_cases", int64(len(dcs)))
+	}
 	r.Evaluations.Store(n.Load())
 	r.Sample(map[string]any{"framed_stream": "empty packet, REQ 1, FIN", "fragmentations": "all compositions of its byte length"})
 	for i := 0; i < 3000; i++ {
@@ -525,7 +751,7 @@ func head2(c []int) []int {
 func encAll(ps []*types.Packet) [][]byte {
 	var out [][]byte
 	for _, p := range ps {
-		b, _ := p.MarshalVT()
+		b := safeEnc(p.MarshalVT, p)
 		out = append(out, b)
 	}
 	return out
@@ -560,6 +786,20 @@ func replayC20(raw json.RawMessage) string {
 			return err.Error()
 		}
 		return roundTripPacket(&p)
+	case "duplex":
+		var ps []*types.Packet
+		for _, b := range c.Pkts {
+			p := &types.Packet{}
+			if err := p.UnmarshalVT(b); err != nil {
+				return err.Error()
+			}
+			ps = append(ps, p)
+		}
+		var o types.Packet
+		if err := o.UnmarshalVT(c.Bytes); err != nil || len(c.Cuts) != 1 {
+			return "bad duplex case"
+		}
+		return duplex(ps, c.Cuts[0], &o)
 	case "framing":
 		var ps []*types.Packet
 		for _, b := range c.Pkts {
